@@ -110,6 +110,8 @@ Knobs gen_knobs(Rng &r, bool allow_default) {
     }
     k.min_fill = r.chance(1, 2) ? (size_t) r.range(1, 8) : (size_t) r.range(9, 2050);
     k.read_buf = r.chance(1, 2) ? (size_t) r.range(16, 64) : (r.chance(1, 2) ? (size_t) r.range(65, 1000) : 4096);
+    // (read buffers below 16 bytes are not generated: the version comment is looked for in the first buffer-full, which a real stream
+    // always delivers whole - fread() returns short only at end of input - so a smaller knob value creates a state the library never meets)
     return k;
 }
 std::string ParseOpts::str() const {
